@@ -88,6 +88,44 @@ theorem tplMatch_instance (σ : Nat → GTy) (p : GTy) :
   | fn r ih =>
     intro s h
     simpa [tplMatch, gsubst, vars] using ih s h
+  | tup a b iha ihb =>
+    intro s h
+    obtain ⟨a1, b1, m1⟩ := iha s h
+    obtain ⟨a2, b2, m2⟩ := ihb _ a1
+    simp only [tplMatch, gsubst, vars, List.mem_append]
+    refine ⟨a2, ?_, fun j hj => m2 j (m1 j hj)⟩
+    rintro i (hi | hi)
+    · exact m2 i (b1 i hi)
+    · exact b2 i hi
+  | tup3 a b c iha ihb ihc =>
+    intro s h
+    obtain ⟨a1, b1, m1⟩ := iha s h
+    obtain ⟨a2, b2, m2⟩ := ihb _ a1
+    obtain ⟨a3, b3, m3⟩ := ihc _ a2
+    simp only [tplMatch, gsubst, vars, List.mem_append]
+    refine ⟨a3, ?_, fun j hj => m3 j (m2 j (m1 j hj))⟩
+    rintro i ((hi | hi) | hi)
+    · exact m3 i (m2 i (b1 i hi))
+    · exact m3 i (b2 i hi)
+    · exact b3 i hi
+  | obj2 k1 a k2 b iha ihb =>
+    intro s h
+    obtain ⟨a1, b1, m1⟩ := iha s h
+    obtain ⟨a2, b2, m2⟩ := ihb _ a1
+    simp only [tplMatch, gsubst, vars, List.mem_append, and_self, if_true]
+    refine ⟨a2, ?_, fun j hj => m2 j (m1 j hj)⟩
+    rintro i (hi | hi)
+    · exact m2 i (b1 i hi)
+    · exact b2 i hi
+  | fn1 pp pr ihp ihr =>
+    intro s h
+    obtain ⟨a1, b1, m1⟩ := ihp s h
+    obtain ⟨a2, b2, m2⟩ := ihr _ a1
+    simp only [tplMatch, gsubst, vars, List.mem_append]
+    refine ⟨a2, ?_, fun j hj => m2 j (m1 j hj)⟩
+    rintro i (hi | hi)
+    · exact m2 i (b1 i hi)
+    · exact b2 i hi
 
 theorem tplMatchArgs_instance (σ : Nat → GTy) (ps : List GTy) :
     ∀ s, Agrees s σ →
@@ -126,11 +164,26 @@ theorem instantiate_of_agrees (σ : Nat → GTy) (s : Subst) (h : Agrees s σ) (
     rw [ihk (fun i hi => hr i (.inl hi)), ihv (fun i hi => hr i (.inr hi))]
   | opt t ih => simp [instantiate, gsubstW, gsubst] at *; exact ih hr
   | fn t ih => simp [instantiate, gsubstW, gsubst] at *; exact ih hr
+  | tup a b iha ihb =>
+    simp only [instantiate, gsubstW, gsubst, vars, List.mem_append] at *
+    rw [iha (fun i hi => hr i (.inl hi)), ihb (fun i hi => hr i (.inr hi))]
+  | tup3 a b c iha ihb ihc =>
+    simp only [instantiate, gsubstW, gsubst, vars, List.mem_append] at *
+    rw [iha (fun i hi => hr i (.inl (.inl hi))), ihb (fun i hi => hr i (.inl (.inr hi))),
+      ihc (fun i hi => hr i (.inr hi))]
+  | obj2 k1 a k2 b iha ihb =>
+    simp only [instantiate, gsubstW, gsubst, vars, List.mem_append] at *
+    rw [iha (fun i hi => hr i (.inl hi)), ihb (fun i hi => hr i (.inr hi))]
+  | fn1 p r ihp ihr =>
+    simp only [instantiate, gsubstW, gsubst, vars, List.mem_append] at *
+    rw [ihp (fun i hi => hr i (.inl hi)), ihr (fun i hi => hr i (.inr hi))]
 
 /-- **C18 instantiate ∘ match.** For every parameter list `ps`, every assignment `σ` of argument
 components and every return type `r` that only mentions template parameters occurring in `ps`:
 calling with the instances `ps[σ]` infers `r[widen σ]`.
-(All of the template family: identity, `T[]`, nested arrays, pair, `table<K,V>`, `T?`, `fun(): T`.
+(All of the template family: identity, `T[]`, nested arrays, pair, `table<K,V>` and its partially
+concrete forms `table<string,T>` / `table<T,boolean>`, tuples `[T, string]` / `[T,U,V]`, records
+`{x: T, y: integer}`, `fun(a: T): integer`, `T?`, `fun(): T`, and any nesting of these.
 For `T?` the instance is `opt (σ T)`: the component itself is what remains once the argument's `nil`
 is taken off — an argument component that is itself optional cannot be told apart from that.) -/
 theorem C18_instantiate_match (σ : Nat → GTy) (ps : List GTy) (r : GTy)
@@ -148,7 +201,51 @@ theorem C18_optional_param :
     inferCall [.opt (.v 0)] [.base (Ty.mk [.lit (.docStr "a".toList), Ty.tNil])] (.v 0) = .base (.prim .string) := by
   decide
 
+/-! ## several values from the last argument -/
+
+theorem expandArgs_ones_multi (n : Nat) (singles vals : List GTy) :
+    expandArgs n (singles.map Arg.one ++ [Arg.multi vals]) = singles ++ vals := by
+  induction singles generalizing n with
+  | nil => simp [expandArgs]
+  | cons g gs ih =>
+    cases hgs : gs.map Arg.one ++ [Arg.multi vals] with
+    | nil => simp at hgs
+    | cons x xs =>
+      simp only [List.map_cons, List.cons_append, hgs, expandArgs]
+      rw [← hgs, ih]
+
+theorem expandArgs_ones (n : Nat) (singles : List GTy) : expandArgs n (singles.map Arg.one) = singles := by
+  induction singles generalizing n with
+  | nil => rfl
+  | cons g gs ih => simp [expandArgs, ih]
+
+/-- **the last argument expands.** When the last argument is a call returning `vals` and the plain
+arguments before it together with `vals` are the instances of the parameters, the call infers the
+declared return type with the components substituted — the returned values line up with the
+parameters *after* the plain arguments (`pair(1, two())` binds `U` to the first value of `two()`). -/
+theorem C18_multi_return_last (σ : Nat → GTy) (ps : List GTy) (r : GTy) (singles vals : List GTy)
+    (hinst : singles ++ vals = ps.map (gsubst σ)) (hr : ∀ i ∈ vars r, ∃ p ∈ ps, i ∈ vars p) :
+    inferCallA ps (singles.map Arg.one ++ [Arg.multi vals]) r = gsubstW σ r := by
+  unfold inferCallA
+  rw [expandArgs_ones_multi, hinst]
+  exact C18_instantiate_match σ ps r hr
+
+/-- a call that is not the last argument contributes only its first value -/
+theorem C18_multi_return_not_last :
+    inferCallA [.v 0, .v 1]
+      [.multi [.base (.prim .string), .base (.prim .boolean)], .one (.base (.prim .integer))]
+      (.tgen (.v 0) (.v 1)) = .tgen (.base (.prim .string)) (.base (.prim .integer)) := by
+  decide
+
 /-! Non-vacuity (tests, labelled as such). -/
+example : inferCallA [.v 0, .v 1]
+    [.one (.base (.lit (.intC 1))), .multi [.base (.prim .string), .base (.prim .boolean)]]
+    (.tgen (.v 0) (.v 1)) = .tgen (.base (.prim .integer)) (.base (.prim .string)) := by decide
+example : inferCall [.v 0] [.base (.lit (.intC 1))] (.tgen (.base (.prim .string)) (.v 0))
+    = .tgen (.base (.prim .string)) (.base (.prim .integer)) := by decide
+example : inferCall [.tup (.v 0) (.base (.prim .string))] [.tup (.base (.ref "A".toList)) (.base (.prim .string))]
+    (.obj2 "x".toList (.v 0) "y".toList (.base (.prim .integer)))
+    = .obj2 "x".toList (.base (.ref "A".toList)) "y".toList (.base (.prim .integer)) := by decide
 example : inferCall [.array (.v 0)] [.array (.base (.lit (.docInt 2)))] (.v 0) = .base (.prim .integer) := by decide
 example : inferCall [.v 0, .v 1] [.base (.ref "A".toList), .array (.base (.prim .string))] (.tgen (.v 0) (.v 1))
     = .tgen (.base (.ref "A".toList)) (.array (.base (.prim .string))) := by decide
